@@ -265,3 +265,29 @@ Theorem serve_recent_is_latest_all : forall acts s tr b, wrun ws0 acts = Some (s
 Proof.
   intros acts s tr b H R. pose proof (wrun_inv _ _ _ _ winv0 H) as I. apply (k_recent _ I b R).
 Qed.
+
+(* a change is never missed: whenever the watcher goroutine sleeps on a live
+   context with no client build in flight and the recorded watch data is behind
+   the inputs, its next tick starts a build *)
+Theorem change_is_noticed : forall s, w_wpc s = WSleep -> w_disposed s = false -> w_client s = CNone ->
+  w_watched s < w_edits s -> exists s', wexec s XWatcher = Some (s', WBuild (w_nb s)).
+Proof.
+  intros s P D C L. simpl. rewrite P. apply Nat.ltb_lt in L. rewrite L, D, C. eauto.
+Qed.
+
+(* but a change can be built twice: the watcher goroutine's second
+   setWatchData (after rebuild() returned) may overwrite the newer watch data
+   of a client build that ran in between, and the next tick rebuilds although
+   the latest finished build already contains the current inputs *)
+Definition wit_redundant : list wact :=
+  [XWatch; XEdit; XWatcher; XWatcher; XWatcher; XWatcher; XEdit; XClientStart; XClientRead; XClientFinish;
+   XWatcher; XWatcher].
+Theorem redundant_watch_build_possible :
+  exists s tr s' b, wrun ws0 wit_redundant = Some (s, tr) /\
+    w_fver s b = Some (w_edits s) /\ w_client s = CNone /\
+    wexec s XWatcher = Some (s', WBuild (w_nb s)).
+Proof.
+  destruct (wrun ws0 wit_redundant) as [[s tr]|] eqn:R; [|vm_compute in R; discriminate].
+  vm_compute in R. inversion R; subst; clear R.
+  eexists. eexists. eexists. exists 1. repeat split; vm_compute; reflexivity.
+Qed.
